@@ -293,7 +293,7 @@ func clientSingles(e SeedEnv, s clientSeed) []Case {
 }
 
 // channel shapes (the key prefix stays): rep:<unit>*<n> repeats a unit
-var chanDevMenu = []string{"rep:a/*2", "rep:a/*24", "rep:a/*1000", "rep:a/*30000", "rep:+/*24", "rep:+/*64", "rep:a*60000/", "#/", "+/", "a//", "a", "/", "a/#/b/", "$share/g/a/b/"}
+var chanDevMenu = []string{"rep:a/*2", "rep:a/*24", "rep:a/*1000", "rep:a/*30000", "rep:+/*64", "rep:a*60000/", "#/", "+/", "a//", "a", "/", "a/#/b/", "$share/g/a/b/"}
 
 var sizeLimits = []int{1024, 65536}
 
